@@ -600,6 +600,14 @@ class Interp:
         # tuple unpacking
         if isinstance(target, (ast.Tuple, ast.List)):
             if self.mentions_stream(value):
+                n0 = len(out)
+                e = self.extract(value, out)
+                new = [t for t in out[n0:] if isinstance(t, Field)]
+                if len(new) == 1 and new[0].count is None and new[0].dt.kind == "V" and len(new[0].dt.fields) == len(target.elts) and isinstance(e, ast.Name):
+                    for i, t in enumerate(target.elts):
+                        if isinstance(t, ast.Name):
+                            self.env[t.id] = ast.Subscript(value=e, slice=C(i), ctx=ast.Load())
+                    return
                 self.err(st, "tuple assignment from the stream")
             v = self.ev(value)
             if isinstance(v, (ast.Tuple, ast.List)) and len(v.elts) == len(target.elts):
@@ -675,6 +683,7 @@ class Unit:
     rterms: list = None
     winterp: Interp = None
     rinterp: Interp = None
+    error: str = None
 
 
 def stream_param(f: FuncInfo, side: str) -> str:
@@ -724,18 +733,26 @@ def _is_stub(f: FuncInfo):
     return False
 
 
-def interpret_unit(prog: Program, u: Unit):
+def interpret_unit(prog: Program, u: Unit, strict=False):
+    """Interpret writer and reader. An unmodelled statement does not abort the whole run: the error is kept on the unit
+    (u.error) and raised when a rule needs that unit."""
     if u.wterms is not None:
         return u
-    Interp._ph_counter_base = Interp._ph_counter
-    u.wstream = stream_param(u.writer, "w")
-    u.rstream = stream_param(u.reader, "r")
-    wi = Interp(prog, u.writer, u.wstream, "w")
-    u.wterms = wi.run()
-    u.winterp = wi
-    ri = Interp(prog, u.reader, u.rstream, "r")
-    u.rterms = ri.run()
-    u.rinterp = ri
+    u.error = None
+    u.wterms, u.rterms = [], []
+    try:
+        u.wstream = stream_param(u.writer, "w")
+        u.rstream = stream_param(u.reader, "r")
+        wi = Interp(prog, u.writer, u.wstream, "w")
+        u.winterp = wi
+        u.wterms = wi.run()
+        ri = Interp(prog, u.reader, u.rstream, "r")
+        u.rinterp = ri
+        u.rterms = ri.run()
+    except AnalysisError as e:
+        if strict:
+            raise
+        u.error = str(e)
     return u
 
 
